@@ -27,6 +27,7 @@ REGISTRY = {
     'X04': 'harness.x04',
     'X05': 'harness.x05',
     'X06': 'harness.x06',
+    'X07': 'harness.x07',
 }
 
 if __name__ == '__main__':
